@@ -131,7 +131,8 @@ class C10(Prop):
                 return self.gen_step(rng, sim)
             name = rng.choice(free)
             pos = rng.randint(0, n)
-            st = {"fn": "newaxis", "name": name, "pos": pos if rng.random() < 0.8 or pos != n else -1}
+            # (a negative position counts from the end of the RESULT's dimensions, as for np.expand_dims: -1 appends)
+            st = {"fn": "newaxis", "name": name, "pos": pos if rng.random() < 0.7 else pos - (n + 1)}
             newax = {"name": name, "kind": "O", "labels": [["N"]]}
             if rng.random() < 0.4:
                 v = gen.rand_axis(rng, name, n=rng.randint(1, 3))
